@@ -72,7 +72,9 @@ CHECKS = {
         category="proof",
         text="Lean theorems: mechanism_first_offered, none_offered_nothing_sent, initial_response_exact (base64 round trip proved), "
              "challenge_answers, login_prompt_classes, auth_wire (AUTH line, at most ten answers each the base64 of user name or password, "
-             "at most one QUIT, success only on a non-challenge reply), ten_challenges_fail, base64_lossless. Correspondence: the real auth "
+             "at most one QUIT, success only on a non-challenge reply), ten_challenges_fail, base64_lossless, plain_read_by_server (an RFC 4616 server - "
+             "base64-decode, split at the NULs: Proofs/SaslPlain.lean - finds no authorization identity, exactly the user name and exactly the password, for "
+             "all NUL-free credentials), xoauth2_read_by_server (the same for the XOAUTH2 response split at the ^A octets). Correspondence: the real auth "
              "of both clients against scripted challenge sequences; Spec/AuthSpec.lean decodes every credential line actually sent; "
              "Debug/error text checked for credential leaks.",
         design_ref="DESIGN.md 5 C14",
@@ -142,7 +144,7 @@ CHECKS = {
         text="Lean theorems over a model of HeaderValue::new (email-encoding's writer, folding writer and RFC 2047 encoder), the header-name "
              "check and the Headers map: value_wf (for every Rust string: no bare CR/LF, every CRLF followed by SP, only HTAB/printable "
              "ASCII; value_wf_every_string and mailbox_header_wf_every_name state it for the UTF-8 octets of every List Char with no hypothesis, "
-             "through Proofs/Utf8Runs.lean), name_safe, section_read_back / headers_read_back (an RFC 5322 reader recovers exactly the stored fields in order and "
+             "through Proofs/Utf8Runs.lean; content_type_wf: the same for what ContentType::display writes), name_safe, section_read_back / headers_read_back (an RFC 5322 reader recovers exactly the stored fields in order and "
              "the body: nothing supplied can add, split, truncate or terminate a field), names_stay_unique, mailbox_header_wf (the same well-formedness "
              "for From / Sender / To / Cc / Bcc / Reply-To under every display name: a model of Mailbox(es)::encode with quoted_string::encode's four "
              "strategies and the repaired write_unbreakable, Model/MailboxEnc.lean, compared octet for octet with the code), content_disposition_wf "
@@ -240,8 +242,9 @@ CHECKS = {
              "closing_delimiter, empty_multipart, delimiter_before_each_part, single_part_layout, message_layout. The same reader is "
              "applied to the real octets of every generated message and compared with the tree asked for (nesting, "
              "order, content types, kinds, leaf contents decoded per their Content-Transfer-Encoding). Correspondence: random trees to "
-             "depth 4 / fan-out 5, all five kinds, empty multiparts, custom boundaries, leaves with `--` lines; formatted twice, cloned, "
-             "alone and as a message body.",
+             "depth 4 / fan-out 5, all five kinds, empty multiparts, custom boundaries (blanks, runs of blanks, tokens shaped like encoded-words), leaves with `--` lines; formatted twice, cloned, "
+             "alone and as a message body. content_type_written_literally: the Content-Type a reader sees is the media type as given for every printable-ASCII "
+             "media type (Model/HeaderEnc.contentTypeValue = ContentType::display after fix b49469c, compared octet for octet with the code).",
         design_ref="DESIGN.md 5 C11",
         note="Trusted: Lean kernel; axioms propext/Quot.sound/Classical.choice; Spec/MimeParse.lean as the reading of RFC 2046 5.1; the generated "
              "boundary not occurring in content is probabilistic (checked per case); model + harness. Known finding: a top-level single "
